@@ -91,9 +91,14 @@ Definition last_text (i : bytes) : sres bytes :=
   | Failure => Failure
   | Error =>
     match i with
-    | 13 :: 10 :: r => Done [] r
-    | [13] => Incomplete
-    | _ => Error
+    | b1 :: r1 =>
+      if b1 =? CR then
+        match r1 with
+        | [] => Incomplete
+        | b2 :: r2 => if b2 =? LF then Done [] r2 else Error
+        end
+      else Error
+    | [] => Error
     end
   end.
 
